@@ -144,6 +144,18 @@ def normalise_dest(p, out_array):
     m = lp["var"]
     lv = p["lv"]
     rng = ascending_range(lp)
+    if lv[0] == "idx" and lv[1] == out_array and rng is None and lv[2] != m and sym.const_value(lp["step"]) not in (None, 0) \
+            and sym.const_value(lp["step"]) > 0 and lp["cmp"] in ("<", "<="):
+        # a strided ascending loop writing out[m + c]: shift the loop by c
+        lin = sym.linear_in(lv[2], m)
+        if lin is not None and lin[0] == I(1) and not sym.contains(lin[1], m):
+            c = lin[1]
+            i2 = sym.sym(m[1] + "'")
+            q = _rewrite_piece(p, {m: sym.sub(i2, c)})
+            q["loops"] = list(q["loops"][:-1]) + [dict(lp, var=i2, lo=sym.add(lp["lo"], c), hi=sym.add(lp["hi"], c), reparameterised=sym.show(m))]
+            q["lv"] = sym.idx(out_array, i2)
+            return q
+        return p
     if lv[0] != "idx" or lv[1] != out_array or rng is None:
         return p
     lo, hi = rng
